@@ -1,6 +1,6 @@
-//! C05 (temporary content): self-test driver of the shared font I/O groundwork
-//! (`fontio.rs`, `fontio_gen.rs`, `lib/ufoio.py`, `lib/fontio_selftest.py`).
-//! The owner of property C05 replaces this file.
+//! C05 / C01 / C04: the implementation side of the font-level checks (`lib/props/c05.py`,
+//! `c01.py`, `c04.py`; also driven by `lib/fontio_selftest.py`).  Builds abstract fonts through
+//! norad's public API, saves, loads and dumps them (`fontio.rs`), generates them (`fontio_gen.rs`).
 //!
 //!   harness c05 --out DIR --seed N [--count K] [--size 0|1|2] [--gen class,class|all]
 //!       for k in 0..K: DIR/case_k/font.json (abstract input), built.json (dump of the built
@@ -12,6 +12,13 @@
 //!       for every DIR/case_*/w.ufo: loaded.json = dump of Font::load (or load_error.txt).
 //!   harness c05 --dump UFO --to FILE
 //!       dump of Font::load(UFO) (or {"__load_error__": ...}).
+//!   harness c05 --out DIR ... --two-opts
+//!       additionally saves every font a second time with independently drawn options
+//!       (n2.ufo, options2.json, loaded2.json).
+//!   harness c05 --resave DIR
+//!       for every DIR/case_*/in.ufo: first.json = dump(Font::load(in.ufo)), r.ufo = Font::save of
+//!       that font, second.json = dump(Font::load(r.ufo)); *_error.txt where a step failed
+//!       (first_error.txt: the input does not load, which is not a failure of the property).
 use crate::util::{catch, write_file, Args, Rng};
 use norad::{Font, QuoteChar, WriteOptions};
 use serde_json::{json, Value as J};
@@ -66,6 +73,49 @@ pub fn main(a: &Args) {
         return;
     }
 
+    if let Some(dir) = opt(a, "--resave") {
+        let mut cases: Vec<PathBuf> = std::fs::read_dir(dir)
+            .expect("cannot list --resave directory")
+            .filter_map(|e| e.ok().map(|e| e.path()))
+            .filter(|p| p.join("in.ufo").is_dir())
+            .collect();
+        cases.sort();
+        for c in cases {
+            for f in ["first.json", "second.json", "first_error.txt", "save_error.txt", "second_error.txt"] {
+                let _ = std::fs::remove_file(c.join(f));
+            }
+            let _ = std::fs::remove_dir_all(c.join("r.ufo"));
+            let font = match catch(|| Font::load(c.join("in.ufo"))) {
+                Err(p) => {
+                    write_file(&c.join("first_error.txt"), &format!("PANIC {}", p));
+                    continue;
+                }
+                Ok(Err(e)) => {
+                    write_file(&c.join("first_error.txt"), &format!("{:?}", e));
+                    continue;
+                }
+                Ok(Ok(f)) => f,
+            };
+            match catch(|| fontio::dump_font(&font)) {
+                Ok(j) => write_file(&c.join("first.json"), &pretty(&j)),
+                Err(p) => {
+                    write_file(&c.join("first_error.txt"), &format!("PANIC in dump {}", p));
+                    continue;
+                }
+            }
+            match catch(|| font.save(c.join("r.ufo"))) {
+                Err(p) => write_file(&c.join("save_error.txt"), &format!("PANIC {}", p)),
+                Ok(Err(e)) => write_file(&c.join("save_error.txt"), &format!("{:?}", e)),
+                Ok(Ok(())) => match load_dump(&c.join("r.ufo")) {
+                    Ok(j) => write_file(&c.join("second.json"), &pretty(&j)),
+                    Err(e) => write_file(&c.join("second_error.txt"), &e),
+                },
+            }
+        }
+        return;
+    }
+
+    let two_opts = a.extra.iter().any(|x| x == "--two-opts");
     let given: Option<J> = opt(a, "--font").map(|f| {
         serde_json::from_str(&std::fs::read_to_string(f).expect("cannot read --font file")).expect("--font file is not JSON")
     });
@@ -87,6 +137,18 @@ pub fn main(a: &Args) {
         };
         write_file(&dir.join("font.json"), &pretty(&font_json));
         let (ic, iw, q) = (rng.below(2), rng.below(9), rng.below(2));
+        let default_opts = rng.below(3) == 0;
+        let (ic2, iw2, q2) = (rng.below(2), rng.below(9), rng.below(2));
+        let mk = |dflt: bool, ic: u64, iw: u64, q: u64| -> (WriteOptions, J) {
+            let mut wo = WriteOptions::default();
+            if !dflt {
+                wo = wo.indent(if ic == 0 { WriteOptions::TAB } else { WriteOptions::SPACE }, iw as usize);
+                if q == 1 {
+                    wo = wo.quote_char(QuoteChar::Single);
+                }
+            }
+            (wo, json!({"default": dflt, "indent_char": if ic == 0 { "tab" } else { "space" }, "indent_width": iw, "single_quote": q == 1}))
+        };
         let mut status = "ok";
         let built = match catch(|| fontio::build_font(&font_json)) {
             Err(p) => Err(format!("PANIC {}", p)),
@@ -99,19 +161,22 @@ pub fn main(a: &Args) {
             }
             Ok(font) => {
                 write_file(&dir.join("built.json"), &pretty(&fontio::dump_font(&font)));
-                let mut wo = WriteOptions::default();
                 // the default (one tab) in a third of the cases, otherwise char x width 0..8
-                let default_opts = rng.below(3) == 0;
-                if !default_opts {
-                    wo = wo.indent(if ic == 0 { WriteOptions::TAB } else { WriteOptions::SPACE }, iw as usize);
-                    if q == 1 {
-                        wo = wo.quote_char(QuoteChar::Single);
+                let (wo, oj) = mk(default_opts, ic, iw, q);
+                write_file(&dir.join("options.json"), &pretty(&oj));
+                if two_opts {
+                    let (wo2, oj2) = mk(false, ic2, iw2, q2);
+                    write_file(&dir.join("options2.json"), &pretty(&oj2));
+                    let ufo2 = dir.join("n2.ufo");
+                    match catch(|| font.save_with_options(&ufo2, &wo2)) {
+                        Err(p) => write_file(&dir.join("save2_error.txt"), &format!("PANIC {}", p)),
+                        Ok(Err(e)) => write_file(&dir.join("save2_error.txt"), &format!("{:?}", e)),
+                        Ok(Ok(())) => match load_dump(&ufo2) {
+                            Ok(j) => write_file(&dir.join("loaded2.json"), &pretty(&j)),
+                            Err(e) => write_file(&dir.join("load2_error.txt"), &e),
+                        },
                     }
                 }
-                write_file(
-                    &dir.join("options.json"),
-                    &pretty(&json!({"default": default_opts, "indent_char": if ic == 0 { "tab" } else { "space" }, "indent_width": iw, "single_quote": q == 1})),
-                );
                 let ufo = dir.join("n.ufo");
                 match catch(|| font.save_with_options(&ufo, &wo)) {
                     Err(p) => {
